@@ -32,6 +32,23 @@ type F struct {
 	Guard    func(term string) string // domain guard for non-integer quantifiers (map domain)
 	seqs     []SeqRef
 	seqsDone bool
+	memo     map[string]*F
+	// OnAssume, when set on a positive forall, installs the fact by other means than instantiation (frameElems: render-time
+	// pattern facts on the current base arrays); it reports whether it could
+	OnAssume func(st *State, guard string) bool
+}
+
+// body instantiates the quantifier body (memoised: the same term always yields the same formula)
+func (f *F) body(t string) *F {
+	if b, ok := f.memo[t]; ok {
+		return b
+	}
+	b := f.Body(t)
+	if f.memo == nil {
+		f.memo = map[string]*F{}
+	}
+	f.memo[t] = b
+	return b
 }
 
 func atom(s string) *F { return &F{Op: "atom", S: s} }
@@ -93,7 +110,7 @@ func renderD(f *F, depth int) string {
 		return sEq(renderD(f.Kids[0], depth), renderD(f.Kids[1], depth))
 	case "forall", "exists":
 		v := fmt.Sprintf("%s?%d", f.Var, depth)
-		body := renderD(f.Body(v), depth+1)
+		body := renderD(f.body(v), depth+1)
 		g := f.guard(v)
 		if f.Op == "forall" {
 			return fmt.Sprintf("(forall ((%s %s)) %s)", v, f.sort(), sImp(g, body))
@@ -158,7 +175,11 @@ func nnf(f *F, neg bool) *F {
 			}
 		}
 		body := f.Body
-		return &F{Op: op, Var: f.Var, Lo: f.Lo, Hi: f.Hi, Sort: f.Sort, Guard: f.Guard, Body: func(t string) *F { return nnf(body(t), neg) }}
+		n := &F{Op: op, Var: f.Var, Lo: f.Lo, Hi: f.Hi, Sort: f.Sort, Guard: f.Guard, Body: func(t string) *F { return nnf(body(t), neg) }}
+		if !neg {
+			n.OnAssume = f.OnAssume
+		}
+		return n
 	}
 	panic("nnf")
 }
@@ -194,6 +215,9 @@ func (x *Exec) assumeG(st *State, guard string, f *F) {
 		}
 		x.assumeG(st, guard, x.bodyLogged(st, f, c))
 	case "forall":
+		if f.OnAssume != nil && f.OnAssume(st, guard) {
+			return
+		}
 		if guard != "true" {
 			body := f.Body
 			f = &F{Op: "forall", Var: f.Var, Lo: f.Lo, Hi: f.Hi, Sort: f.Sort, Guard: f.Guard, Body: func(t string) *F {
@@ -242,7 +266,7 @@ func (x *Exec) seqsOf(f *F) []SeqRef {
 	x.probeVar = f.Var + "?probe"
 	func() {
 		defer func() { recover() }()
-		render(f.Body(f.Var + "?probe"))
+		render(f.body(f.Var + "?probe"))
 	}()
 	x.probe, x.probeVar = saved, savedVar
 	f.seqsDone = true
@@ -255,7 +279,7 @@ func (x *Exec) bodyLogged(st *State, f *F, t string) *F {
 	var buf []IdxT
 	saved := x.idxLog
 	x.idxLog = &buf
-	b := f.Body(t)
+	b := f.body(t)
 	if b.hasQ() {
 		// nested quantifiers are evaluated lazily; force one rendering so that their reads are seen
 		func() {
@@ -349,7 +373,7 @@ func (x *Exec) instantiate(f *F, terms []IdxT, depth int, out *[]string) {
 					break
 				}
 				var sub []string
-				x.instantiate(f.Body(k.T), terms, depth+1, &sub)
+				x.instantiate(f.body(k.T), terms, depth+1, &sub)
 				*out = append(*out, sImp(f.guard(k.T), sAnd(sub...)))
 			}
 			return
@@ -360,7 +384,7 @@ func (x *Exec) instantiate(f *F, terms []IdxT, depth int, out *[]string) {
 			for i := 0; i < x.bound; i++ {
 				t := sAdd(f.Lo, sInt(int64(i)))
 				var sub []string
-				x.instantiate(f.Body(t), terms, depth+1, &sub)
+				x.instantiate(f.body(t), terms, depth+1, &sub)
 				*out = append(*out, sImp(sLt(t, f.Hi), sAnd(sub...)))
 			}
 			return
@@ -387,7 +411,7 @@ func (x *Exec) instantiate(f *F, terms []IdxT, depth int, out *[]string) {
 				break
 			}
 			var sub []string
-			x.instantiate(f.Body(t), terms, depth+1, &sub)
+			x.instantiate(f.body(t), terms, depth+1, &sub)
 			*out = append(*out, sImp(f.guard(t), sAnd(sub...)))
 		}
 	case "and":
@@ -411,7 +435,7 @@ func (x *Exec) instantiate(f *F, terms []IdxT, depth int, out *[]string) {
 			var ds []string
 			for i := 0; i < x.bound; i++ {
 				t := sAdd(f.Lo, sInt(int64(i)))
-				ds = append(ds, sAnd(sLt(t, f.Hi), render(f.Body(t))))
+				ds = append(ds, sAnd(sLt(t, f.Hi), render(f.body(t))))
 			}
 			*out = append(*out, sLe(sSub(f.Hi, f.Lo), sInt(int64(x.bound))), sOr(ds...))
 			return
@@ -485,7 +509,7 @@ func (x *Exec) proveNNF(fr *Frame, st *State, name, kind string, f *F, in ssa.In
 		if f.Sort != "" {
 			for _, k := range st.keys {
 				if k.Sort == f.Sort {
-					ds = append(ds, sAnd(f.guard(k.T), render(f.Body(k.T))))
+					ds = append(ds, sAnd(f.guard(k.T), render(f.body(k.T))))
 				}
 			}
 			ds = append(ds, render(f))
@@ -497,7 +521,7 @@ func (x *Exec) proveNNF(fr *Frame, st *State, name, kind string, f *F, in ssa.In
 			s2.assume(sLe(sSub(f.Hi, f.Lo), sInt(int64(x.bound))))
 			for i := 0; i < x.bound; i++ {
 				t := sAdd(f.Lo, sInt(int64(i)))
-				ds = append(ds, sAnd(sLt(t, f.Hi), render(f.Body(t))))
+				ds = append(ds, sAnd(sLt(t, f.Hi), render(f.body(t))))
 			}
 			x.emit(fr, s2, name, kind, atom(sOr(ds...)), in)
 			return
@@ -508,7 +532,7 @@ func (x *Exec) proveNNF(fr *Frame, st *State, name, kind string, f *F, in ssa.In
 			cands = cands[:24]
 		}
 		for _, t := range cands {
-			ds = append(ds, sAnd(f.guard(t), render(f.Body(t))))
+			ds = append(ds, sAnd(f.guard(t), render(f.body(t))))
 		}
 		ds = append(ds, render(f))
 		x.emit(fr, st, name, kind, atom(sOr(ds...)), in)
@@ -535,6 +559,9 @@ type SpecEnv struct {
 	// in loop invariants and in-body assertions a re-assigned parameter denotes its CURRENT value (old(p) the entry value);
 	// in pre- and postconditions a parameter always denotes the value passed by the caller
 	curParams bool
+	// condition under which the sub-expression being evaluated matters (antecedents of ==>, left operands of && and ||):
+	// well-definedness of pure calls is proved, and their contracts assumed, under it
+	g string
 }
 
 func (x *Exec) specEnvAt(fr *Frame, st, old *State, extra map[string]Val) *SpecEnv {
@@ -783,11 +810,21 @@ func (e *SpecEnv) pkgObject(pkgSuffix, name string) (Val, bool) {
 func (e *SpecEnv) binary(v *ast.BinaryExpr) Val {
 	switch v.Op {
 	case token.LAND, token.LOR:
-		a, b := e.evalBool(v.X), e.evalBool(v.Y)
+		a := e.evalBool(v.X)
 		op := "and"
 		if v.Op == token.LOR {
 			op = "or"
 		}
+		saved := e.g
+		if a.Q == nil {
+			if op == "and" {
+				e.g = sAnd(e.gd(), a.S)
+			} else {
+				e.g = sAnd(e.gd(), sNot(a.S))
+			}
+		}
+		b := e.evalBool(v.Y)
+		e.g = saved
 		if a.Q == nil && b.Q == nil {
 			if op == "and" {
 				return boolVal(sAnd(a.S, b.S))
@@ -1082,7 +1119,17 @@ func (e *SpecEnv) callFunc(fn *ssa.Function, args []Val) Val {
 
 // pureApply: uninterpreted application shared by code and specs; contract ensures are instantiated on it
 func (e *SpecEnv) pureApply(key string, con *Contract, sig *types.Signature, args []Val, fn *ssa.Function) Val {
+	saved := e.x.curGuard
+	e.x.curGuard = e.gd()
+	defer func() { e.x.curGuard = saved }()
 	return e.x.pureApp(e.fr, e.st, key, con, sig, args, fn, false)
+}
+
+func (e *SpecEnv) gd() string {
+	if e.g == "" {
+		return "true"
+	}
+	return e.g
 }
 
 func (x *Exec) pureApp(fr *Frame, st *State, key string, con *Contract, sig *types.Signature, args []Val, fn *ssa.Function, preProved bool) Val {
@@ -1152,7 +1199,7 @@ func (x *Exec) pureApp(fr *Frame, st *State, key string, con *Contract, sig *typ
 			rd := x.readsOf(fn, map[*ssa.Function]bool{})
 			if rd.all {
 				sorts = append(sorts, "Int")
-				terms = append(terms, sInt(int64(st.hv)))
+				terms = append(terms, st.heapVersion(terms))
 			} else {
 				for _, k := range sortedKeys(rd.keys) {
 					ss, ts := x.materialize(st, k, rd.keys[k])
@@ -1162,7 +1209,7 @@ func (x *Exec) pureApp(fr *Frame, st *State, key string, con *Contract, sig *typ
 			}
 		} else if con != nil && con.Opts["reads"] == "heap" {
 			sorts = append(sorts, "Int")
-			terms = append(terms, sInt(int64(st.hv)))
+			terms = append(terms, st.heapVersion(terms))
 		} else {
 			x.note("pure function without body treated as heap-independent: " + key)
 		}
@@ -1209,12 +1256,22 @@ func (x *Exec) pureApp(fr *Frame, st *State, key string, con *Contract, sig *typ
 	}
 	if con != nil && (len(con.Ensures) > 0 || len(con.Pre) > 0) {
 		// the application must be well-defined (requires proved here unless the caller already did), then its ensures hold
+		gd := x.curGuard
+		if gd == "" || preProved {
+			gd = "true"
+		}
 		sig0 := base + "(" + strings.Join(terms, ",") + ")"
-		if !st.applied[sig0] {
+		if gd != "true" {
+			sig0 += "|" + gd
+		}
+		if !st.applied[sig0] && !st.applied[base+"("+strings.Join(terms, ",")+")"] {
 			st.applied[sig0] = true
 			names := x.bindArgs(sig, args)
 			x.bindResults(names, sig, res)
-			env := &SpecEnv{x: x, fr: fr, st: st, old: st, names: names, pkg: con.Pkg, depth: 1}
+			env := &SpecEnv{x: x, fr: fr, st: st, old: st, names: names, pkg: con.Pkg, depth: 1, g: gd}
+			savedG := x.curGuard
+			x.curGuard = gd
+			defer func() { x.curGuard = savedG }()
 			i := 0
 			for _, p := range con.Pre {
 				if p.Let != "" {
@@ -1223,14 +1280,18 @@ func (x *Exec) pureApp(fr *Frame, st *State, key string, con *Contract, sig *typ
 				}
 				f := env.evalBool(p.C.Expr).formula()
 				if !preProved && !x.noWD {
-					x.proveF(fr, st, fmt.Sprintf("wd:%s.pre[%d]", shortKey(key), i), "well-defined", f, nil)
+					goal := f
+					if gd != "true" {
+						goal = &F{Op: "imp", Kids: []*F{atom(gd), f}}
+					}
+					x.proveF(fr, st, fmt.Sprintf("wd:%s.pre[%d]", shortKey(key), i), "well-defined", goal, nil)
 				}
-				x.assumeF(st, f)
+				x.assumeG(st, gd, nnf(f, false))
 				i++
 			}
 			for _, en := range con.Ensures {
 				if f, ok := env.evalCallerSide(en); ok {
-					x.assumeF(st, f)
+					x.assumeG(st, gd, nnf(f, false))
 				}
 			}
 		}
@@ -1491,7 +1552,13 @@ func (e *SpecEnv) builtinSpec(name string, c *ast.CallExpr) (Val, bool) {
 	arg := func(i int) Val { return e.eval(c.Args[i]) }
 	switch name {
 	case "implies":
-		a, b := e.evalBool(c.Args[0]), e.evalBool(c.Args[1])
+		a := e.evalBool(c.Args[0])
+		saved := e.g
+		if a.Q == nil {
+			e.g = sAnd(e.gd(), a.S)
+		}
+		b := e.evalBool(c.Args[1])
+		e.g = saved
 		if a.Q == nil && b.Q == nil {
 			return boolVal(sImp(a.S, b.S)), true
 		}
@@ -1690,6 +1757,49 @@ func (e *SpecEnv) builtinSpec(name string, c *ast.CallExpr) (Val, bool) {
 			return atom(eq)
 		}
 		return bval(&F{Op: "and", Kids: []*F{atom(sAnd(sEq(now.Arr, was.Arr), sEq(now.Off, was.Off), sEq(now.Len, was.Len))), {Op: "forall", Var: "u", Lo: "0", Hi: now.Len, Body: body}}}), true
+	case "frameElems":
+		// frameElems(T): no element of any []T backing array that existed at function entry differs from its value at entry
+		// (only arrays allocated by this activation have been written).  Proved with skolem constants; when assumed right after a
+		// loop-head havoc it becomes a render-time fact on the fresh base arrays.
+		if e.old == nil || len(c.Args) != 1 {
+			sfail("frameElems(T) needs a pre-state and one type argument")
+		}
+		et := e.x.eng.resolveType(e.pkg, c.Args[0])
+		if et == nil {
+			sfail("frameElems: unknown type %s", exprString(c.Args[0]))
+		}
+		x := e.x
+		cur := x.lazyFor(e.st, et).clone()
+		pre := x.lazyFor(e.old, et).clone()
+		cur.d, pre.d = nil, nil // reads happen inside render-time pattern closures: no abbreviations (registry is locked there)
+		alloc0 := x.alloc0
+		eqAt := func(a, i string) string {
+			now, was := cur.read(a, i), pre.read(a, i)
+			var eqs []string
+			for k := range now {
+				eqs = append(eqs, sEq(now[k], was[k]))
+			}
+			return sAnd(eqs...)
+		}
+		inner := func(a string) *F {
+			return &F{Op: "forall", Var: "fi", Guard: func(string) string { return "true" }, Body: func(i string) *F { return atom(eqAt(a, i)) }}
+		}
+		f := &F{Op: "forall", Var: "fa", Guard: func(a string) string { return sAnd(sLt("0", a), sLe(a, alloc0)) }, Body: inner}
+		f.OnAssume = func(st *State, guard string) bool {
+			if len(cur.ups) != 0 {
+				return false
+			}
+			for k := range cur.base {
+				kk := k
+				x.decls.PatAdd("sel2:"+cur.base[kk], func(args []string) string {
+					a, i := args[0], args[1]
+					was := pre.read(a, i)
+					return sImp(sAnd(guard, sLt("0", a), sLe(a, alloc0)), sEq(sSel(sSel(cur.base[kk], a), i), was[kk]))
+				})
+			}
+			return true
+		}
+		return bval(f), true
 	case "gh":
 		// gh("name", key): ghost array G.name (mathematical integers) at an integer key
 		lit, ok := c.Args[0].(*ast.BasicLit)
